@@ -75,6 +75,7 @@ class PipeSim(Sim):
         self.stage_complete_seen = {}
         self.stage_completions = {}
         self.post_resub_stage = None
+        self.last_next_stage_argv = None
         self.obs_prev = 0
         self.all_jobs = dict(self.jobs)
         self.jobs = {j["name"]: j for j in scen["stages"][0]}
@@ -157,6 +158,12 @@ class PipeSim(Sim):
             r = re.search(r"--return-code=(-?\d+)", a.cmd)
             k = int(m.group(1)) if m else None
             rc = int(r.group(1)) if r else None
+            if not (a.top or "").startswith("retrynext"):
+                i0 = next((i for i, x in enumerate(a.argv) if x == "pipeline"), None)
+                self.last_next_stage_argv = list(a.argv[i0:]) if i0 is not None else None
+            else:
+                self.log("NEXT_STAGE_RETRY", k, rc, a.host)
+                return
             self.next_stage_cmds.setdefault(k, []).append((rc, a.host))
             self.log("NEXT_STAGE_CMD", k, rc, a.host)
             # one notification per completion of stage k-1 (a stage that is resubmitted later completes again)
@@ -178,6 +185,8 @@ class PipeSim(Sim):
             self.drive()
             if self.scen.get("resubmit_stage"):
                 self.post_resubmit()
+            if self.scen.get("retry_next_stage"):
+                self.retry_next_stage()
             self.final_checks()
             err = None
         except Inconclusive as e:
@@ -189,8 +198,23 @@ class PipeSim(Sim):
         res["next_stage_cmds"] = sum(len(v) for v in self.next_stage_cmds.values())
         res["pipeline_complete"] = getattr(self, "pipeline_complete", None)
         res["stage_resubmitted"] = bool(getattr(self, "stage_resubmitted", False))
+        res["next_stage_retries"] = getattr(self, "retried_next_stage", 0)
         res["nonzero_stage_rcs"] = sum(1 for v in self.next_stage_cmds.values() for (rc, h) in v if rc not in (0, None))
         return res
+
+    def retry_next_stage(self):
+        """History extension (C11 for pipelines): a `submit-next-stage` command was hit by an injected error; the user runs the
+        same command again, twice, and a try-submit-jobs on the current stage.  A stage that was already configured must not be
+        configured (and its jobs handed over) a second time."""
+        if not self.faults_injected or not self.last_next_stage_argv:
+            return
+        self.scen["faults"] = {}
+        for n in range(2):
+            self.stuck = False
+            self.recoveries = 0
+            self.retried_next_stage = getattr(self, "retried_next_stage", 0) + 1
+            self.spawn_top(f"retrynext{n}", ["jade"] + self.last_next_stage_argv, "login")
+            self.drive()
 
     def post_resubmit(self):
         """History extension: after the pipeline completed, the user resubmits the failed jobs of one stage.  That stage
@@ -242,7 +266,9 @@ class PipeSim(Sim):
         last_created = max(self.stage_submit_count) if self.stage_submit_count else 0
         last_done = bool(self.stage_is_complete_on_disk(self.nstages)) if last_created == self.nstages else False
         exp_stage_num = self.nstages + 1 if (last_done and self.next_stage_cmds.get(self.nstages + 1)) else last_created
-        if pj.get("stage_num") != exp_stage_num:
+        # an error or kill inside submit-next-stage itself may leave the stage pointer advanced with the stage not configured
+        manager_hit = any("submit-next-stage" in str(f) for f in self.faults_injected)
+        if pj.get("stage_num") != exp_stage_num and not manager_hit:
             V("stage-num", f"pipeline.json stage_num={pj.get('stage_num')} but the last stage submitted is {last_created} (last stage complete: {last_done})")
         if pj.get("is_complete") and not last_done:
             V("complete-too-early", "pipeline marked complete before the last stage's completion flag")
